@@ -38,6 +38,7 @@ import (
 	"github.com/sassoftware/relic/v8/config"
 	"github.com/sassoftware/relic/v8/internal/signinit"
 	"github.com/sassoftware/relic/v8/lib/magic"
+	"github.com/sassoftware/relic/v8/lib/passprompt"
 	"github.com/sassoftware/relic/v8/lib/x509tools"
 	"github.com/sassoftware/relic/v8/server/daemon"
 	"github.com/sassoftware/relic/v8/signers"
@@ -80,6 +81,7 @@ type Env struct {
 	RootPEM   string                       // path
 	AuditFile string
 	Binary    string // relic binary (pipeline B), built on demand
+	Prompt    passprompt.PasswordGetter // handed to the token (PKCS#12 passwords)
 
 	mu      sync.Mutex
 	tok     token.Token
@@ -214,7 +216,7 @@ func (e *Env) token(cfg *config.Config, keyName string) (token.Token, error) {
 	if err != nil {
 		return nil, err
 	}
-	return open.Token(cfg, kc.Token, nil)
+	return open.Token(cfg, kc.Token, e.Prompt)
 }
 
 func openForPatching(in, out string) (*os.File, error) {
